@@ -50,6 +50,17 @@ Theorem C08_reader_after_install : forall (S : Type) (r : rep S) s,
   read_next S (install S r s) (read_start S (install S r s)) = Some s.
 Proof. intros S r s. split; [exact (reader_after_install S r s)|exact (reader_new_after_install S r s)]. Qed.
 Print Assumptions C08_reader_after_install.
+(* the saver's side of an interruption: a stop signal or a failing sink makes the save report an error - a stream that
+   ends early is never handed on as a snapshot; a save that reports success is the state pinned at prepare time *)
+Theorem C08_interrupted_save_is_an_error : forall (S : Type) (f : sfmt) (pinned : S) (stopped failed : bool),
+  stopped || failed = true -> save_to S f pinned stopped failed = SaveError S.
+Proof. exact save_interrupted. Qed.
+Theorem C08_completed_save_is_the_pinned_state : forall (S : Type) (f : sfmt) (pinned : S) str,
+  save_to S f pinned false false = SaveDone S str -> str = save S f pinned.
+Proof. exact save_complete. Qed.
+Print Assumptions C08_interrupted_save_is_an_error.
+Print Assumptions C08_completed_save_is_the_pinned_state.
+
 (* a sequence handed out before an install and consumed only after it delivers the NEW content (repaired code,
    KNOWN_FINDINGS F-C08-lazy-read-after-install: it used to open its iterator on the closed old DB and panic) *)
 Theorem C08_lazy_sequence_after_install : forall (S : Type) (r : rep S) (s : S),
